@@ -71,6 +71,18 @@ def variants(d, rng: random.Random):
                     c = corpus.neutral_code(g, rng)
                     if c != base_codes[j]:
                         out.append((f"na{i+1}+key{j+1}", corpus.build_payload(d, {**base_codes, i: na, j: c})))
+    # neighbouring key values far from zero (two vessels whose MMSI differ in the last digit, instances next to the top of the
+    # range): a key rendered through a float or with a limited number of significant digits merges them
+    for i, f in enumerate(d["fields"]):
+        if f["pk"] and i in base_codes and f["match"] == -1 and f["kind"] in ("num", "int", "lookup") and f["len"] >= 8:
+            top = ((1 << (f["len"] - 1)) if f["twos"] else (1 << f["len"])) - 5
+            pairs = [(top, top - 1)]
+            for need, v in ((24, 1234567), (32, 244670316), (40, (1 << 33) + 10), (56, (1 << 53) + 2)):
+                if f["len"] >= need:
+                    pairs.append((v, v + 1))
+            for x, y in pairs:
+                out.append((f"near{i+1}", corpus.build_payload(d, {**base_codes, i: x})))
+                out.append((f"near{i+1}", corpus.build_payload(d, {**base_codes, i: y})))
     # a text key: ids that differ only in blanks at their ends, or in letter case, are different keys
     for i, f in enumerate(d["fields"]):
         if f["pk"] and f["kind"] == "strlau" and f["off"] >= 0:
